@@ -412,10 +412,21 @@ func (g *Gen) resolveClosure(fc *FuncContract, p *packages.Package) error {
 	var target *ssa.Function
 	role := f[1]
 	if strings.HasPrefix(role, "#") {
-		var n int
-		fmt.Sscanf(role[1:], "%d", &n)
-		if n >= 1 && n <= len(outer.AnonFuncs) {
-			target = outer.AnonFuncs[n-1]
+		// "#2" or nested "#2#1"
+		cur := outer
+		okPath := true
+		for _, part := range strings.Split(role[1:], "#") {
+			var n int
+			fmt.Sscanf(part, "%d", &n)
+			if n >= 1 && n <= len(cur.AnonFuncs) {
+				cur = cur.AnonFuncs[n-1]
+			} else {
+				okPath = false
+				break
+			}
+		}
+		if okPath && cur != outer {
+			target = cur
 		}
 	} else {
 		key := strings.Trim(role, "\"")
